@@ -342,8 +342,9 @@ impl<'c, 'a> Exec<'c, 'a> {
         self.ctx.checked();
         let cur = self.frames.last().map(|f| f.cur);
         let tname = cur.map(|c| self.layout.names()[c as usize]).unwrap_or("<original>");
-        if addr != self.base || len != self.len {
-            // empty slices may legitimately dangle, but palette only casts the slice, so the address is kept too
+        // an empty view has no memory to reuse: its address means nothing (a refactor may hand out `&mut []`),
+        // only its length is compared
+        if len != self.len || (len > 0 && addr != self.base) {
             self.ctx.fail(
                 "memory-reuse",
                 &format!("memory-reuse:{}", self.layout.name()),
@@ -828,7 +829,9 @@ macro_rules! exec_layout {
                         ctx.checked();
                         ctx.changed();
                         // same memory: same address, length and capacity
-                        if before != after {
+                        // a container without an allocation (capacity 0) has no address to keep
+                        let same_memory = before.1 == after.1 && before.2 == after.2 && (before.2 == 0 || before.0 == after.0);
+                        if !same_memory {
                             ctx.fail(
                                 "memory-reuse",
                                 &format!("memory-reuse:{}:{how:?}", layout.name()),
